@@ -23,6 +23,9 @@ type zzCEntry struct {
 	listed    bool
 	display   component.Component
 	order     int
+	// ghost: the API added an entry for this UUID under another profile than the client holds
+	// (known finding, see known_findings.json); cleared when the client drops the entry
+	apiOtherProfile bool
 }
 
 type zzClient struct {
@@ -104,7 +107,11 @@ func zzCompare(tl InternalTabList, c *zzClient) {
 	for id, ce := range c.entries {
 		e := got[id]
 		zz.Assert(e != nil, "the client holds an entry the tab list does not report")
-		zz.Assert(e.Profile().ID == id && e.Profile().Name == ce.name, "an entry's profile differs from the one the client was given")
+		if ce.apiOtherProfile {
+			zz.Assert(e.Profile().ID == id && e.Profile().Name == ce.name, "API Add for a listed UUID under another profile: the reported profile differs from the one the client keeps")
+		} else {
+			zz.Assert(e.Profile().ID == id && e.Profile().Name == ce.name, "an entry's profile differs from the one the client was given")
+		}
 		zz.Assert(int(e.Latency()/time.Millisecond) == ce.latencyMs, "an entry's latency differs from what the client was told")
 		if e.GameMode() != -1 {
 			zz.Assert(e.GameMode() == ce.gameMode, "an entry's game mode differs from what the client was told")
@@ -134,7 +141,11 @@ func zzStep(tl InternalTabList, c *zzClient) {
 	id := zzIDs[i]
 	switch zz.Choose(6) {
 	case 0: // API: add a fresh entry object (new, or replacing the one with the same id)
-		zz.Assert(tl.Add(zzNewEntry(tl, i)) == nil, "adding an entry failed")
+		ne := zzNewEntry(tl, i)
+		if ce := c.entries[id]; ce != nil && ce.name != ne.Profile().Name {
+			ce.apiOtherProfile = true
+		}
+		zz.Assert(tl.Add(ne) == nil, "adding an entry failed")
 		zz.Reach("api-add")
 	case 1: // API: add the entry that is already in the list again
 		if e := tl.Entries()[id]; e != nil {
@@ -169,7 +180,11 @@ func zzStep(tl InternalTabList, c *zzClient) {
 		zz.Assert(err == nil, "changing an entry's attribute failed")
 		zz.Reach("api-set")
 	case 4: // backend: player-info update, processed by the model and forwarded to the client
-		pe := &playerinfo.Entry{ProfileID: id, Profile: profile.GameProfile{ID: id, Name: zzNames[i]},
+		name := zzNames[i]
+		if zz.Bool() { // the backend announces the profile under another name than the entry may already have
+			name += "2"
+		}
+		pe := &playerinfo.Entry{ProfileID: id, Profile: profile.GameProfile{ID: id, Name: name},
 			Listed: zz.Bool(), Latency: []int{0, 20, 999}[zz.Choose(3)], GameMode: zzModes(), ListOrder: zzOrder()}
 		var set []playerinfo.UpsertAction
 		switch zz.Choose(6) {
@@ -256,4 +271,3 @@ func VerifMutant_TabList() {
 }
 
 var _ tablist.Viewer = (*zzViewer)(nil)
-
